@@ -36,13 +36,13 @@ type signal struct {
 	idx    int // index in Sim.sigs
 	fanout []int32
 
-	local  bool // function-local storage: no change tracking
-	dir    declKind
-	isPort bool
-	file   string
-	line   int
+	local   bool // function-local storage: no change tracking
+	dir     declKind
+	isPort  bool
+	file    string
+	line    int
 	modName string // defining module (for diagnostics)
-	lname  string // local name
+	lname   string // local name
 
 	// continuous-driver bookkeeping
 	drivers  []*driver
@@ -85,10 +85,10 @@ type combNode struct {
 	writes  []*signal
 	rranges []sigRange
 	wranges []sigRange
-	isProc bool
-	file   string
-	line   int
-	desc   string
+	isProc  bool
+	file    string
+	line    int
+	desc    string
 }
 
 type edgeProc struct {
@@ -516,11 +516,15 @@ func (s *Sim) runtimeError(file string, line int, class, msg string) {
 
 // Settle evaluates the design after input changes: combinational fix-point, edge
 // detection, edge-triggered processes, non-blocking commit, repeated for derived clocks.
-func (s *Sim) Settle() error {
-	for _, i := range s.writtenList {
-		s.written[i] = false
+func (s *Sim) Settle() error { return s.settle(true) }
+
+func (s *Sim) settle(clearWritten bool) error {
+	if clearWritten {
+		for _, i := range s.writtenList {
+			s.written[i] = false
+		}
+		s.writtenList = s.writtenList[:0]
 	}
-	s.writtenList = s.writtenList[:0]
 	if err := s.comb(); err != nil {
 		return err
 	}
@@ -591,18 +595,19 @@ func (s *Sim) Settle() error {
 	return nil
 }
 
-// Cycle is Set(clk,1); Settle(); Set(clk,0); Settle().
+// Cycle is Set(clk,1); Settle(); Set(clk,0); Settle(). The Written set after Cycle
+// covers both Settle calls of the cycle (it is cleared once, at the start of the cycle).
 func (s *Sim) Cycle(clk string) error {
 	if err := s.Set(clk, 1); err != nil {
 		return err
 	}
-	if err := s.Settle(); err != nil {
+	if err := s.settle(true); err != nil {
 		return err
 	}
 	if err := s.Set(clk, 0); err != nil {
 		return err
 	}
-	return s.Settle()
+	return s.settle(false)
 }
 
 // ---------------------------------------------------------------- public accessors
